@@ -173,11 +173,16 @@ def rule_pass(ctx):
         f = find_fn(SA, b)
         if f is not None:
             t = render(f["body"]).replace(" ", "")
-            ctx.check(R, b + "/meta-passed-through", "assignment_meta:assignment_meta.clone()" in t and st in t, t[:160], site(SA, f))
+            import sgrep
+            pvb_ = sgrep.params(f)
+            stc = [x for x in walk(f["body"]) if x["k"] == "Struct" and last(x["path"]) == st]
+            okmp = len(stc) == 1 and len(pvb_) >= 3 and any(x["name"] == "assignment_meta" and render(strip(x["e"])) == pvb_[2] for x in stc[0]["fields"])
+            ctx.check(R, b + "/meta-passed-through", okmp, t[:160], site(SA, f))
     for q, f in fns_in_file(SA):
         if f["name"] == "into_report" and "Assignment" in q:
             t = render(f["body"]).replace(" ", "")
-            ctx.check(R, "%s::into_report/primary-label-is-the-assignment" % q, "report.add_primary(self.assignment_meta.location,file_id," in t, "", site(SA, f))
+            import sgrep
+            ctx.check(R, "%s::into_report/primary-label-is-the-assignment" % q, sgrep.has(f["body"], "__r.add_primary(self.assignment_meta.location, __f, __m)") or sgrep.has(f["body"], "__r.add_primary(self.assignment_meta.file_location(), __f, __m)"), "", site(SA, f))
     # recording
     vs = find_fn(SA, "visit_statement")
     if vs is None:
@@ -225,7 +230,9 @@ def rule_identity(ctx):
         ctx.missing(R, "PartialEq for ir::Meta")
     else:
         t = render(f["body"]).replace(" ", "")
-        ctx.check(R, "ir::Meta/eq-compares-location-and-file", "self.location==other.location" in t and "self.file_id==other.file_id" in t, t, site(IR, f))
+        import sgrep
+        pvq = sgrep.params(f)
+        ctx.check(R, "ir::Meta/eq-compares-location-and-file", bool(pvq) and sgrep.has(f["body"], "self.location == __o.location", None, {"__o": pvq[0]}) and sgrep.has(f["body"], "self.file_id == __o.file_id", None, {"__o": pvq[0]}), t, site(IR, f))
     h = None
     for q, fn in fns_in_file(IR):
         if fn["name"] == "hash" and "for Meta" in q:
